@@ -174,11 +174,11 @@ func runSkiplist(c *Case, keep bool, out *Outcome) *Violation {
 		mu.Unlock()
 	}
 	type putRec struct {
-		ikey      string
-		val       string
-		callStep  uint64
-		retStep   uint64
-		returned  bool
+		ikey     string
+		val      string
+		callStep uint64
+		retStep  uint64
+		returned bool
 	}
 	var puts []*putRec
 	var ops []porcupine.Operation
